@@ -34,6 +34,12 @@ Definition reg_GetStorageLimit (w : rworld) (id : Z) : go_BeaconStorageLimit * b
 Definition reg_SetRecord (w : rworld) (id : Z) (b : go_BeaconTimestamp) : outcome (rworld * unit) :=
   reg_put_record w id {| rc_key := BeaconTimestamp_TimestampId b; rc_hashes := [BeaconTimestamp_Hash b];
                          rc_time := BeaconTimestamp_SubmitTime b |}.
+(* GetBeaconTimestampByID: the stored record under (id, timestamp id), or the zero struct and false *)
+Definition reg_GetRecord (w : rworld) (id tsid : Z) : go_BeaconTimestamp * bool :=
+  match aget (id, tsid) (r_recs (rw_reg w)) with
+  | Some rc => (mk_go_BeaconTimestamp (rc_key rc) (rc_time rc) (nth 0 (rc_hashes rc) EmptyString), true)
+  | None => (zero_go_BeaconTimestamp, false)
+  end.
 Definition params_of_go (p : go_Params) : reg_params :=
   {| rp_fee_register := Params_FeeRegister p; rp_fee_record := Params_FeeRecord p; rp_fee_purchase := Params_FeePurchaseStorage p;
      rp_denom := Params_Denom p; rp_default_limit := Params_DefaultStorageLimit p; rp_max_limit := Params_MaxStorageLimit p |}.
